@@ -529,6 +529,8 @@ func TestC20(t *testing.T) {
 	runSeq(r, "Slice", nseq, seqSlice, 201)
 	runSeq(r, "Set", nseq/2, seqSet, 202)
 	runSeq(r, "Emitter", nseq, seqEmitter, 203)
+	runSeq(r, "Emitter(events.New)", nseq/4, seqEmitterEventsNew, 208)
+	runSeq(r, "Emitter(events package functions)", nseq/4, seqEmitterEventsPkg, 209)
 	runSeq(r, "Map[int]", nseq/2, func(rng *rand.Rand, n int) (string, string, []string) {
 		return seqMap(rng, n, mapDriver[int]{"int", func(i int) int { return i }})
 	}, 204)
